@@ -21,11 +21,15 @@ Scenarios == {"fresh",                \* built, never solved
 Objects == {"leafpoint", "derivedpoint", "leafexpr", "derivedexpr", "constraint", "lmi", "metric",
             "zeropoint",       \* 0 * x0: a derived point whose only term has weight zero
             "zeroexpr",        \* 0 * f(x0): the stored term has weight zero (a product by a scalar is not pruned)
-            "zeroprod"}        \* (1 - theta) * |x1 - xs|^2 with theta = 1
+            "zeroprod",        \* (1 - theta) * |x1 - xs|^2 with theta = 1
+            "function"}        \* the function itself: its tables of multipliers (get_class_constraints_duals)
 \* (sums, differences and comparisons prune zero terms: 0 * f(x0) + 0 is the CONSTANT 0 and has a value without any solve)
-Accessors(o) == IF o \in {"constraint", "lmi"} THEN {"eval", "eval_dual"} ELSE {"eval"}
+Accessors(o) == IF o \in {"constraint", "lmi"} THEN {"eval", "eval_dual"} ELSE IF o = "function" THEN {"duals"} ELSE {"eval"}
 HasSolution(scn) == scn = "solved"
-Expected(scn, o, a) == IF HasSolution(scn) THEN "ok" ELSE "raises:ValueError"
+\* (the tables of a function whose class constraints were never generated - no solve was attempted on its model - are empty:
+\*  no number either)
+Expected(scn, o, a) == IF HasSolution(scn) THEN "ok"
+                       ELSE IF o = "function" /\ scn \in {"fresh", "other-solved"} THEN "empty" ELSE "raises:ValueError"
 SolveReturns(scn) == CASE scn \in {"unbounded1", "unbounded2", "unbounded3", "unbounded4", "infeasible1", "infeasible2", "infeasible3", "infeasible4"} -> "none"
                        [] scn = "solved" -> "num" [] OTHER -> "n/a"
 \* invalid option values: must end in an error, never in a number
